@@ -151,6 +151,10 @@ func TestVerifC03Receipts(t *testing.T) {
 					}
 					p := o.cmd.proposal
 					p.Records = cloneRecords(p.Records)
+					// the all-record allocator proof asserts that the message ids are
+					// fresh; a caller that re-uses ids with other content cannot carry it
+					// (production derives the command id from allocator-issued ids)
+					p.ServerAllocatedMessageIDs = false
 					idx := rapid.IntRange(0, len(p.Records)-1).Draw(rt, "conflictRecord")
 					field := rapid.SampledFrom([]string{"payload", "from", "clientno", "id", "ts", "setting", "synconce", "count+", "count-"}).Draw(rt, "conflictField")
 					switch field {
